@@ -5,7 +5,9 @@ import (
 	"go/constant"
 	"go/token"
 	"go/types"
+	"regexp/syntax"
 	"sort"
+	"strconv"
 	"strings"
 
 	"golang.org/x/tools/go/ssa"
@@ -393,6 +395,96 @@ func runC18(c *Ctx) {
 		}
 		pw := callsNamed(pd, "conversion.uintPow")
 		r.Check(len(pw) == 1, "R18.6", "enum value power", c.Pos(pd.Pos()), "x**y evaluated by uintPow(x, y)", "power syntax is not evaluated with uintPow")
+		// base case of the power helper, by conditional constant propagation with the exponent fixed: x**0 == 1
+		// (the usual first flag of a bitmask enum is written 2**0). x**1 == x is not decided this way: in the
+		// `for ; exp != 0; exp >>= 1` form the loop-head phi merges the initial 1 with the product
+		if up := c.FnOpt("pkg/conversion", "uintPow"); up != nil && len(up.Params) == 2 {
+			for _, bc := range []struct {
+				exp  int64
+				want string
+			}{{0, "1"}} {
+				got := "no return reachable"
+				if rv, ok := sccpReturns(up, map[int]int64{1: bc.exp}); ok && len(rv) > 0 {
+					got = rv[0].String()
+				}
+				r.Check(got == bc.want, "R18.6", fmt.Sprintf("uintPow(x, %d)", bc.exp), c.Pos(up.Pos()), "= "+bc.want+" (constant propagation, exponent fixed)",
+					fmt.Sprintf("with the exponent fixed to %d the result of uintPow is %s, expected %s: an enum entry written x**%d gets a wrong value", bc.exp, got, bc.want, bc.exp))
+			}
+		}
+	}
+
+	// R18.7 message names
+	r.Rule("R18.7", "message names: the XML name of a message is not written into the generated code, the runtime rebuilds it from the struct name in upper case (msgGoToDef) to compute CRC_EXTRA; so processMessage refuses, before building the message, "+
+		"every name that is not made of upper-case letters, digits and underscores (anchored pattern over that alphabet, or an un-folded comparison with the upper-cased inversion)", 1)
+	if pm := c.Fn("pkg/conversion", "processMessage"); pm != nil {
+		r.Functions[fnQual(pm)] = true
+		ok, seen := false, []string{}
+		for _, iff := range ifsIn(pm) {
+			errSucc := -1
+			for i, sb := range iff.Block().Succs {
+				if ret, isRet := sb.Instrs[len(sb.Instrs)-1].(*ssa.Return); isRet && len(ret.Results) == 2 && !isNilConst(ret.Results[1]) {
+					errSucc = i
+				}
+			}
+			if errSucc < 0 {
+				continue
+			}
+			cs := ex(iff.Cond)
+			seen = append(seen, cs)
+			// (a) anchored pattern over [A-Z0-9_]
+			for _, in := range allInstrs(pm) {
+				call, isCall := in.(*ssa.Call)
+				if !isCall || !strings.HasPrefix(calleeName(&call.Call), "(regexp.Regexp).") || len(call.Call.Args) < 2 || !strings.HasSuffix(ex(call.Call.Args[1]), "arg1.Name") || !computedFrom(iff.Cond, call, 0, map[ssa.Value]bool{}) {
+					continue
+				}
+				rx := ex(call.Call.Args[0])
+				if ld, isLd := call.Call.Args[0].(*ssa.UnOp); isLd && ld.Op == token.MUL {
+					if g, isG := ld.X.(*ssa.Global); isG {
+						if iv := onceInit(g); iv != nil {
+							rx = ex(iv)
+						}
+					}
+				}
+				if !strings.HasPrefix(rx, "regexp.MustCompile(") {
+					continue
+				}
+				pat, err := strconv.Unquote(strings.TrimSuffix(strings.TrimPrefix(rx, "regexp.MustCompile("), ")"))
+				if err != nil || !upperOnlyPattern(pat) {
+					continue
+				}
+				// the error is on the no-match side
+				noMatch := -1
+				if b, isB := iff.Cond.(*ssa.BinOp); isB && (b.Op == token.EQL || b.Op == token.NEQ) {
+					empty := isNilConst(b.Y) || ex(b.Y) == "\"\"" || ex(b.Y) == "0"
+					if _, isLen := b.X.(*ssa.Call); isLen && empty && (b.X == ssa.Value(call) || computedFrom(b.X, call, 0, map[ssa.Value]bool{})) {
+						if b.Op == token.EQL {
+							noMatch = 0
+						} else {
+							noMatch = 1
+						}
+					}
+				} else if iff.Cond == ssa.Value(call) {
+					noMatch = 1
+				} else if inner, neg := stripNot(iff.Cond); neg && inner == ssa.Value(call) {
+					noMatch = 0
+				}
+				if noMatch == errSucc {
+					ok = true
+				}
+			}
+			// (b) name compared, un-folded, with the upper-cased inversion
+			if b, isB := iff.Cond.(*ssa.BinOp); isB && b.Op == token.NEQ && errSucc == 0 {
+				x, y := ex(b.X), ex(b.Y)
+				if y == "arg1.Name" {
+					x, y = y, x
+				}
+				if x == "arg1.Name" && strings.HasPrefix(y, "strings.ToUpper(") && strings.Contains(y, "arg1.Name") {
+					ok = true
+				}
+			}
+		}
+		r.Check(ok, "R18.7", "processMessage name admission", c.Pos(pm.Pos()), "names outside [A-Z0-9_]+ are refused", "processMessage does not refuse message names with characters outside [A-Z0-9_] (rejections found: "+strings.Join(seen, " ; ")+
+			"): a name with lower-case letters is generated into a struct whose run-time name, and so CRC_EXTRA, differs from the definition's")
 	}
 }
 
@@ -547,4 +639,66 @@ func templateText(c *Ctx, varName string) string {
 		return find(st.Val, 0)
 	}
 	return ""
+}
+
+// upperOnlyPattern: the regular expression is anchored at both ends and every character it can match is an
+// upper-case letter, a digit or an underscore.
+func upperOnlyPattern(pat string) bool {
+	re, err := syntax.Parse(pat, syntax.Perl)
+	if err != nil {
+		return false
+	}
+	re = re.Simplify()
+	okRune := func(lo, hi rune) bool {
+		for x := lo; x <= hi; x++ {
+			if !(x >= 'A' && x <= 'Z' || x >= '0' && x <= '9' || x == '_') {
+				return false
+			}
+			if x-lo > 200 {
+				return false
+			}
+		}
+		return true
+	}
+	var alpha func(n *syntax.Regexp) bool
+	alpha = func(n *syntax.Regexp) bool {
+		switch n.Op {
+		case syntax.OpLiteral:
+			if n.Flags&syntax.FoldCase != 0 {
+				return false
+			}
+			for _, x := range n.Rune {
+				if !okRune(x, x) {
+					return false
+				}
+			}
+			return true
+		case syntax.OpCharClass:
+			for i := 0; i+1 < len(n.Rune); i += 2 {
+				if !okRune(n.Rune[i], n.Rune[i+1]) {
+					return false
+				}
+			}
+			return true
+		case syntax.OpAnyChar, syntax.OpAnyCharNotNL:
+			return false
+		case syntax.OpEmptyMatch, syntax.OpBeginText, syntax.OpEndText:
+			return true
+		case syntax.OpCapture, syntax.OpStar, syntax.OpPlus, syntax.OpQuest, syntax.OpRepeat, syntax.OpConcat, syntax.OpAlternate:
+			for _, s := range n.Sub {
+				if !alpha(s) {
+					return false
+				}
+			}
+			return true
+		}
+		return false
+	}
+	if re.Op != syntax.OpConcat || len(re.Sub) < 2 || re.Sub[0].Op != syntax.OpBeginText || re.Sub[len(re.Sub)-1].Op != syntax.OpEndText {
+		return false
+	}
+	if re.Sub[len(re.Sub)-1].Flags&syntax.WasDollar != 0 {
+		// `$` without the multi-line flag is end of text: fine
+	}
+	return alpha(re)
 }
